@@ -292,6 +292,23 @@ func runC16(c *Ctx) {
 					c.Law(allowed || !strings.HasPrefix(out, "accepted:"), "C16/extra-arity-accepted", "Compile accepts no argument count the specification does not allow", src+" (experimental functions "+tag+")", out)
 				}
 				c.Count("outcome:" + strings.SplitN(out, ":", 2)[0])
+				// whether a call is accepted depends on the NUMBER of arguments, not on what they are: the null literal {} is
+				// an argument like any other
+				if n >= 1 {
+					for _, variant := range [][]string{append(append([]string{}, args[:n-1]...), "{}"), repeatStr("{}", n), append([]string{"{}"}, args[1:]...)} {
+						vsrc := shape.recv + "." + name + "(" + strings.Join(variant, ", ") + ")"
+						_, verr := fhirpath.Compile(vsrc, copts...)
+						vout := "accepted"
+						if verr != nil {
+							vout = "rejected"
+						}
+						base := "rejected"
+						if cerr == nil && !pan {
+							base = "accepted"
+						}
+						c.Law(vout == base, "C16/arity-depends-on-argument", "Compile accepts or rejects a call by its argument count, whatever the arguments are", vsrc+" vs "+src+" (experimental functions "+tag+")", vout+" vs "+base)
+					}
+				}
 				if cerr != nil || pan {
 					continue
 				}
@@ -344,3 +361,11 @@ func runC16(c *Ctx) {
 // functions whose arguments are criteria / projections / branches evaluated per item or on demand
 // (iif evaluates only the branch it takes; convertsToQuantity reports a failing conversion as false)
 var lazyArgs = map[string]bool{"iif": true, "convertsToQuantity": true}
+
+func repeatStr(x string, n int) []string {
+	out := make([]string, n)
+	for i := range out {
+		out[i] = x
+	}
+	return out
+}
